@@ -163,6 +163,36 @@ def run(ctx):
                 ctx.fail('z2inv', 'invertible matrix rejected', dict(mat=mat.tolist(), got=got))
             elif (O.gf2_matmul(got, mat) != np.eye(n, dtype=int)).any() or (O.gf2_matmul(mat, got) != np.eye(n, dtype=int)).any():
                 ctx.fail('z2inv', 'result is not the GF(2) inverse', dict(mat=mat.tolist(), got=got))
+    # every operand form (Pauli with each phase, monomial with a coefficient, list, polynomial) under a composed map equals the two
+    # maps applied in sequence, and the inverse undoes it; coefficients are never touched
+    for _ in range(ctx.budget(60, 600)):
+        n = rng.choice([1, 2, 2, 3])
+        A, B = G.rand_map_ops(rng, n), G.rand_map_ops(rng, n)
+        P = G.rand_op(rng, n)
+        c0 = complex(rng.choice([0.5, -2, 1, 3]), rng.choice([0, 1, -0.5]))
+        want = H.map_apply(B, H.map_apply(A, P))
+        ctx.case(('operand-forms', tuple(A), tuple(B), P), True, sample=dict(op='compose on operand forms', P=P))
+        try:
+            mAB = impl.cmap(A).compose(impl.cmap(B))
+            got_p = impl.ops_of(impl.pauli(P).transform_by(mAB))
+            mono = pc.PauliMonomial(impl.garr(P[0]), P[1]).set_c(c0)
+            mono.transform_by(mAB)
+            got_m = (O.from_gp(mono.g, mono.p), complex(mono.c))
+            mono2 = pc.PauliMonomial(impl.garr(P[0]), P[1]).set_c(c0)
+            mono2.transform_by(impl.cmap(A)); mono2.transform_by(impl.cmap(B)); mono2.transform_by(mAB.inverse())
+            got_m2 = (O.from_gp(mono2.g, mono2.p), complex(mono2.c))
+            pol = impl.poly([(P, c0)]).transform_by(mAB)
+            got_q = [(O.from_gp(g_, int(p_)), complex(c_)) for g_, p_, c_ in zip(pol.gs, pol.ps, pol.cs)]
+        except Exception as e:
+            ctx.fail('transform_by', 'implementation raised %r' % e, dict(A=A, B=B, P=P)); continue
+        if got_p != want:
+            ctx.fail('Pauli.transform_by', 'the composed map does not act as the two maps in sequence on a single operator', dict(A=A, B=B, P=P, got=got_p, want=want))
+        if got_m != (want, c0):
+            ctx.fail('PauliMonomial.transform_by', 'a monomial under the composed map: wrong image or coefficient touched (%s)' % (got_m,), dict(A=A, B=B, P=P, c=str(c0), want=want))
+        if got_m2 != ((P[0], P[1] % 4), c0):
+            ctx.fail('PauliMonomial.transform_by', 'A, B, then the inverse of the composition does not restore the monomial (%s)' % (got_m2,), dict(A=A, B=B, P=P, c=str(c0)))
+        if got_q != [(want, c0)]:
+            ctx.fail('PauliPolynomial.transform_by', 'a polynomial term under the composed map: wrong image or coefficient touched', dict(A=A, B=B, P=P, c=str(c0), got=str(got_q)))
     # inverse of valid maps on wide registers (2N and 4N beyond 64)
     for _ in range(ctx.budget(6, 40)):
         n = rng.choice([16, 17, 20, 33])
